@@ -758,7 +758,7 @@ pub fn gen_strategy(r: &mut Rng, u: &Value, kind: StratKind) -> Strategy {
                 if let Some(p) = paths.iter().find(|p| matches!(p.last(), Some(Step::I(_))) && !sd.contains(*p)) {
                     if let Some(Step::I(i)) = p.last() {
                         let parent = render_path(&p[..p.len() - 1].to_vec(), r);
-                        for form in [format!("[0{i}]"), format!("[+{i}]"), format!("[ {i}]"), format!("[{i} ]"), format!("[{i}.0]"), format!("[0x{i}]"), format!("[00{i}]")] {
+                        for form in [format!("[0{i}]"), format!("[+{i}]"), format!("[ {i}]"), format!("[{i} ]"), format!("[{i}.0]"), format!("[0x{i}]"), format!("[00{i}]"), format!(".{i}"), format!(".{i}."), format!("[{i}"), format!("{i}]"), format!("[-{i}]"), format!("['{i}']"), format!("[\"{i}\"]")] {
                             strs.push(format!("{parent}{form}"));
                         }
                     }
